@@ -181,7 +181,8 @@ def oracle(case, res, hist):
         prog = case["progs"].get(str(gi[0])) if gi else "?"
         if p["alive"]:
             V.append(v("worker-outlived", f"{key0};prog={prog}",
-                       f"{name} still alive {res.sched.now - fault_t:.1f} simulated s after the initiator was lost"))
+                       f"{name} still alive {res.sched.now - fault_t:.1f} simulated s after the initiator was lost "
+                       f"(run ended: {res.reason}; quiescent = every task of it is blocked for good)"))
         elif p["exit_time"] - fault_t > bound + 1e-9:
             V.append(v("worker-exit-late", f"{key0};prog={prog}",
                        f"{name} exited {p['exit_time'] - fault_t:.1f} s after the fault (bound {bound})"))
